@@ -1,6 +1,7 @@
 import Pycoin.Driver.Core
 import Pycoin.Model.Base58
 import Pycoin.Model.Bech32
+import Pycoin.Model.ParseableStr
 /-!
 C11 ops.  Every Python `str` travels as the hex of its UTF-8 bytes (`-` = empty string).
 -/
@@ -27,6 +28,28 @@ def showRaw (text : List Char) : String :=
   match Bech32.bech32Decode text with
   | some (hrp, data, spec) => s!"ok {showStr hrp} {showList toString data} {showSpec spec}"
   | none => "none"
+
+def parseStep? (s : String) : Option (Option Pstr.Dec) :=
+  if s = "b58" then some (some .b58)
+  else if s = "b58sha" then some (some .b58sha)
+  else if s = "b58grs" then some (some .b58grs)
+  else if s = "bech32" then some (some .bech32)
+  else if s.startsWith "net:" then some none      -- a network-level parser: not modelled, prints `*`
+  else none
+
+def showVal : Pstr.Val → String
+  | .bytes none => "none"
+  | .bytes (some b) => "ok " ++ hx b
+  | .bech none => "none"
+  | .bech (some (hrp, v, d, spec)) => s!"ok {showStr hrp} {v} {showList toString d} {showSpec spec}"
+
+/-- the steps applied in turn to one cache (the stateful model); unmodelled steps leave it alone -/
+def pstrSeq (tb : Bytes) (tc : List Char) : List (Option Pstr.Dec) → Pstr.Cache → List String
+  | [], _ => []
+  | none :: ds, c => "*" :: pstrSeq tb tc ds c
+  | some d :: ds, c =>
+    let r := Pstr.run d tb tc c
+    showVal r.1 :: pstrSeq tb tc ds r.2
 
 def handle : Handler := fun op args =>
   match op, args with
@@ -61,6 +84,11 @@ def handle : Handler := fun op args =>
     match Bech32.parseBech32 (← parseStr? text) with
     | some (hrp, v, d, spec) => some s!"ok {showStr hrp} {v} {showList toString d} {showSpec spec}"
     | none => some "none"
+  | "pstr_seq", [text, steps] => do
+    let tb ← parseHex? text
+    let tc ← parseStr? text
+    let steps ← (steps.splitOn ",").mapM parseStep?
+    some (" | ".intercalate (pstrSeq tb tc steps []))
   | "convertbits", [data, f, t, pad] => do
     let data ← parseList? parseNat? data
     let f ← parseNat? f
